@@ -82,7 +82,7 @@ def generate(rng, tier, idx):
                 'faults': faults, 'not_dash_escaped': rng.random() < 0.15, 'verify': True,
                 # history on one OpenPGP environment object: it has verified the genuine message before it is handed
                 # the altered one (`gemato verify A B`, a long-running caller)
-                'prime': rng.random() < 0.4}
+                'prime': rng.random() < 0.4, 'raw_byte': rng.randrange(1000) if rng.random() < 0.12 else None}
     if rng.random() < 0.75:
         seq = template(rng)
     else:
@@ -484,7 +484,36 @@ def exec_real(sc):
             m0 = gemato.manifest.ManifestFile()
             call(lambda: m0.load(io.StringIO(signed), verify_openpgp=True, openpgp_env=env))
         m = gemato.manifest.ManifestFile()
-        r = call(lambda: m.load(io.StringIO(text), verify_openpgp=True, openpgp_env=proxy))
+        if sc.get('raw_byte') is not None:
+            # the message comes from a FILE, one byte that is not UTF-8 inserted into a signed entry: whatever view of it
+            # gemato parses, the peer must be handed the same bytes (the usual answer is to refuse the file)
+            import tempfile
+            from gemato.compression import open_potentially_compressed_path
+            from ..world import scratch_base
+            data = text.encode('utf8')
+            body_ = [k_ for k_, l_ in enumerate(data.split(b'\n')) if l_.startswith((b'DATA ', b'IGNORE ', b'DIST '))]
+            if body_:
+                ls_ = data.split(b'\n')
+                k_ = body_[sc['raw_byte'] % len(body_)]
+                sp_ = ls_[k_].split(b' ')
+                sp_[1] = sp_[1] + bytes([0xff, 0xfe, 0xc3, 0x80][sc['raw_byte'] % 4:][:1])
+                ls_[k_] = b' '.join(sp_)
+                data = b'\n'.join(ls_)
+            fd_, tmp_ = tempfile.mkstemp(prefix='vsim.c04.', dir=scratch_base())
+            os.write(fd_, data)
+            os.close(fd_)
+            try:
+                def load_file():
+                    with open_potentially_compressed_path(tmp_, 'r', encoding='utf8') as f_:
+                        return m.load(f_, verify_openpgp=True, openpgp_env=proxy)
+                r = call(load_file)
+            finally:
+                os.unlink(tmp_)
+            if r[0] in ('DECODE', 'CODEC'):
+                env.close()
+                return text, cl, ('GE', 'refused-non-utf8', None), [], 'bytes-that-are-not-utf8-refused'
+        else:
+            r = call(lambda: m.load(io.StringIO(text), verify_openpgp=True, openpgp_env=proxy))
     finally:
         env.close()
     truth = None
